@@ -90,7 +90,7 @@ PROPS = {
         'retry-budget, Karn and start-uses-manager-RTO are syntactic facts about call sites (argument / guard text), not data-flow',
         'association level (SACK immediacy, 200 ms bound per DATA packet, heartbeat round trip) is not part of this check yet',
     ]},
-    'C17': {'jobs': [PEND], 'assumptions': [
+    'C17': {'jobs': [PEND, HSD, E2E_HS, E2E_T], 'assumptions': [
         'scheduler half only (pending_queue.go, scheduler factories); the negotiation half (chunk kinds, wrong-kind ABORT) is tied elsewhere',
         'WFQ theorems are over exact rationals; the Go code uses float64 (identical for power-of-two weights; X compares the Float instance bit for bit)',
         'a chunk pointer is never queued twice (fresh chunk per fragment), so chunkFinish[ptr] is modelled as a tag stored with the queue entry',
@@ -101,7 +101,7 @@ PROPS = {
         'not proved: a pop-count starvation bound for WFQ (only checked on traces, clause STARV); float64 rounding',
     ]},
     'C12': {'jobs': [dict(CODEC, pviol_prefix=['C12-'])], 'assumptions': []},
-    'C13': {'jobs': [dict(CODEC, pviol_prefix=['C13-'])], 'assumptions': [
+    'C13': {'jobs': [dict(CODEC, pviol_prefix=['C13-']), HSD, E2E_HS, E2E_T], 'assumptions': [
         'the CRC is uninterpreted in the theorems; the driver recomputes every checksum with its own bitwise CRC32c, '
         'which the harness compares with hash/crc32 on random strings']},
     'C03': {'jobs': [dict(CODEC, pviol_prefix=['C03-']), ASND, E2E_PR], 'assumptions': [
